@@ -490,8 +490,10 @@ def _check(area, pid, tier, seed, t0, args):
         'wall_s': round(wall, 2),
         'violations': 1 if violation else 0,
     }
-    os.makedirs(os.path.join(VERIF, 'evidence'), exist_ok=True)
-    with open(os.path.join(VERIF, 'evidence', pid + '.json'), 'w', encoding='utf-8') as f:
+    # (VERIF_EVIDENCE_DIR: where a run against a deliberately changed tree - seed testing - leaves its record instead)
+    evdir = os.environ.get('VERIF_EVIDENCE_DIR') or os.path.join(VERIF, 'evidence')
+    os.makedirs(evdir, exist_ok=True)
+    with open(os.path.join(evdir, pid + '.json'), 'w', encoding='utf-8') as f:
         json.dump(evidence, f, indent=1, sort_keys=True)
 
     for n in res.notes:
